@@ -2354,6 +2354,184 @@ fn oracle_c16(ops: &[String], outs: &[String]) -> Option<OracleFail> {
     None
 }
 
+// ---------------------------------------------------------------------------------------------
+// Round-15 scenarios (deterministic structure, a few parameters from the PRNG)
+// ---------------------------------------------------------------------------------------------
+
+/// flush `from` and hand the packets selected by `keep(index in this flush, absolute index)` to `to`, in order
+fn flush_to(ex: &mut dyn FnMut(&str) -> String, emitted: &mut HashMap<String, usize>, from: &str, to: &str, keep: &mut dyn FnMut(usize, usize) -> bool) -> usize {
+    let out = ex(&format!("flush {}", from));
+    let k = pkts_count(&out);
+    let base = *emitted.get(from).unwrap_or(&0);
+    emitted.insert(from.to_string(), base + k);
+    for i in 0..k {
+        if keep(i, base + i) {
+            ex(&format!("dlv {} {} {}", to, from, base + i));
+        }
+    }
+    k
+}
+
+/// C14 / C15: per-tick budgets around and below one slice, a sliced reliable message waiting, quiet ticks that leave
+/// budget unused, then a burst of small messages on every channel kind (budget state must not carry over between ticks).
+fn script_small_budget(rng: &mut Rng, _tier: Tier, ex: &mut dyn FnMut(&str) -> String) {
+    let budget = rng.pick(&[500u64, 1000, 1199, 1200, 1201, 1700, 2399, 2400]);
+    let ch = default_chans();
+    ex(&cfg_line(budget, &ch, &ch));
+    ex("cli 0");
+    ex("add 100");
+    ex("setc 0");
+    let mut em: HashMap<String, usize> = HashMap::new();
+    let rel = rng.pick(&[1u8, 2]);
+    let who = rng.pick(&[("c0", "s100"), ("s100", "c0")]);
+    let (a, b) = (who.0, who.1);
+    ex(&format!("send {} {} {}", a, rel, hex(&pat(rng.pick(&[1201usize, 2500, 3600]), 3))));
+    let quiet = rng.range(2, 5);
+    let round = |ex: &mut dyn FnMut(&str) -> String, em: &mut HashMap<String, usize>| {
+        ex("upd c0 301000");
+        ex("upd srv 301000");
+        flush_to(ex, em, a, b, &mut |_, _| true);
+        for c in 0..3u8 {
+            drain(ex, b, c, 100);
+        }
+        flush_to(ex, em, b, a, &mut |_, _| true);
+    };
+    for _ in 0..quiet {
+        round(ex, &mut em);
+    }
+    // burst: more small traffic than one tick may carry, on the unreliable and on the other reliable channel
+    let n = rng.range(8, 20);
+    for k in 0..n {
+        ex(&format!("send {} 0 {}", a, hex(&pat(100, k as u8))));
+    }
+    for k in 0..n {
+        ex(&format!("send {} {} {}", a, 3 - rel, hex(&pat(100, 100 + k as u8))));
+    }
+    for _ in 0..(3 + 2 * n + 12) {
+        round(ex, &mut em);
+    }
+    ex("stat c0");
+    ex("stat s100");
+    if budget >= 1200 {
+        ex("note healed");
+    }
+}
+
+/// C15 / C08: more small reliable messages in one tick than one packet holds (overflow flush inside one
+/// get_packets_to_send), optionally followed by a sliced message in the same tick; everything arrives and is
+/// acknowledged at once; then silence for several resend periods: nothing may be transmitted again.
+fn script_overflow_ack(rng: &mut Rng, _tier: Tier, ex: &mut dyn FnMut(&str) -> String) {
+    let resend = rng.pick(&[100_000u64, 300_000]);
+    let kind = rng.pick(&["RO", "RU"]);
+    let ch = vec![Chan { id: 1, kind, max_mem: 5 * 1024 * 1024, resend_us: resend }, Chan { id: 0, kind: "U", max_mem: 100_000, resend_us: 0 }];
+    ex(&cfg_line(60_000, &ch, &ch));
+    ex("cli 0");
+    ex("add 100");
+    ex("setc 0");
+    let mut em: HashMap<String, usize> = HashMap::new();
+    let who = rng.pick(&[("c0", "s100"), ("s100", "c0")]);
+    let (a, b) = (who.0, who.1);
+    let n = rng.range(3, 7);
+    for k in 0..n {
+        ex(&format!("send {} 1 {}", a, hex(&pat(rng.pick(&[400usize, 500, 650, 1100]), k as u8))));
+    }
+    if rng.chance(1, 2) {
+        ex(&format!("send {} 1 {}", a, hex(&pat(2500, 77))));
+    }
+    ex("upd c0 20000");
+    ex("upd srv 20000");
+    ex(&format!("dump {}", a));
+    flush_to(ex, &mut em, a, b, &mut |_, _| true);
+    drain(ex, b, 1, 100);
+    flush_to(ex, &mut em, b, a, &mut |_, _| true);
+    for _ in 0..12 {
+        let dt = rng.pick(&[resend / 5, resend, resend + 1000]);
+        ex(&format!("upd c0 {}", dt));
+        ex(&format!("upd srv {}", dt));
+        ex(&format!("dump {}", a));
+        flush_to(ex, &mut em, a, b, &mut |_, _| true);
+        drain(ex, b, 1, 100);
+        flush_to(ex, &mut em, b, a, &mut |_, _| true);
+    }
+    ex("stat c0");
+    ex("stat s100");
+    ex("note healed");
+}
+
+/// C11 / C08 / C01: a lossy burst of unreliable traffic towards ONE client leaves that client with more than 64
+/// disjoint acknowledgement ranges while a reliable broadcast's datagram to it sits, lost, in the gap between the two
+/// oldest ranges; then a perfect network. The broadcast (and later ones) must reach every client.
+fn script_ack_gap(rng: &mut Rng, _tier: Tier, ex: &mut dyn FnMut(&str) -> String) {
+    let ch = default_chans();
+    ex(&cfg_line(60_000, &ch, &ch));
+    let n = rng.range(2, 3);
+    for h in 0..n {
+        ex(&format!("cli {}", h));
+        ex(&format!("add {}", 100 + h));
+        ex(&format!("setc {}", h));
+    }
+    let v = rng.below(n); // the client behind the lossy link
+    let (sv, cv) = (format!("s{}", 100 + v), format!("c{}", v));
+    let mut em: HashMap<String, usize> = HashMap::new();
+    let rel = rng.pick(&[1u8, 2]);
+    // one unreliable message arrives (sequence 0)
+    ex(&format!("send {} 0 {}", sv, hex(&pat(10, 1))));
+    ex("upd srv 1000");
+    flush_to(ex, &mut em, &sv, &cv, &mut |_, _| true);
+    // a reliable broadcast: the victim's datagram is lost, everybody else gets it
+    ex("ids");
+    ex(&format!("bcast {} {}", rel, hex(&pat(300, 2))));
+    ex("upd srv 1000");
+    for h in 0..n {
+        let (s, c) = (format!("s{}", 100 + h), format!("c{}", h));
+        flush_to(ex, &mut em, &s, &c, &mut |_, _| h != v);
+    }
+    // the burst: one 700-byte unreliable message per datagram, every second datagram lost, the victim's uplink silent
+    let holes = rng.pick(&[63u64, 64, 65, 66, 70, 120]);
+    let mut left = 2 * holes;
+    while left > 0 {
+        let k = left.min(60);
+        for j in 0..k {
+            ex(&format!("send {} 0 {}", sv, hex(&pat(700, j as u8))));
+        }
+        left -= k;
+        ex("upd srv 16000");
+        flush_to(ex, &mut em, &sv, &cv, &mut |i, _| i % 2 == 0);
+        drain(ex, &cv, 0, 1000);
+        ex(&format!("dump {}", cv));
+    }
+    // perfect network from here on
+    let mut extra = 0;
+    for round in 0..14 {
+        ex("upd srv 301000");
+        for h in 0..n {
+            ex(&format!("upd c{} 301000", h));
+        }
+        if round == 2 || round == 4 {
+            ex("ids");
+            ex(&format!("bcast {} {}", rel, hex(&pat(200, 10 + extra))));
+            extra += 1;
+        }
+        for h in 0..n {
+            let (s, c) = (format!("s{}", 100 + h), format!("c{}", h));
+            flush_to(ex, &mut em, &c, &s, &mut |_, _| true);
+            if round < 2 {
+                ex(&format!("dump {}", s));
+            }
+            flush_to(ex, &mut em, &s, &c, &mut |_, _| true);
+            for chn in 0..3u8 {
+                drain(ex, &c, chn, 1000);
+                drain(ex, &s, chn, 1000);
+            }
+        }
+    }
+    for h in 0..n {
+        ex(&format!("stat c{}", h));
+        ex(&format!("stat s{}", 100 + h));
+    }
+    ex("note healed");
+}
+
 pub fn profiles() -> Vec<Profile> {
     vec![Profile {
         name: "rn-regress",
@@ -2364,6 +2542,36 @@ pub fn profiles() -> Vec<Profile> {
         nontrivial: |_| true,
         keep: |_| 0,
         fixed: Some(regress_ops),
+    },
+    Profile {
+        name: "rn-pair-smallbudget",
+        props: &["C14", "C15"],
+        cases: |t| if t == Tier::Quick { 24 } else { 300 },
+        new_world,
+        script: script_small_budget,
+        nontrivial: |_| true,
+        keep: keep_cfg,
+        fixed: None,
+    },
+    Profile {
+        name: "rn-timing-overflow",
+        props: &["C15", "C08"],
+        cases: |t| if t == Tier::Quick { 24 } else { 300 },
+        new_world,
+        script: script_overflow_ack,
+        nontrivial: |_| true,
+        keep: keep_cfg,
+        fixed: None,
+    },
+    Profile {
+        name: "rn-multi-ackgap",
+        props: &["C11", "C08", "C01", "C02"],
+        cases: |t| if t == Tier::Quick { 12 } else { 100 },
+        new_world,
+        script: script_ack_gap,
+        nontrivial: |_| true,
+        keep: keep_cfg,
+        fixed: None,
     },
     Profile {
         name: "rn-hostile",
@@ -3540,7 +3748,7 @@ fn oracle_duplicates_harmless(ops: &[String], outs: &[String]) -> Option<OracleF
 /// the `acked` flags), so an acknowledgement the sender wrongly ignores is seen.
 fn oracle_c15_acked(ops: &[String], outs: &[String]) -> Option<OracleFail> {
     let mut hist: HashMap<String, Vec<String>> = HashMap::new(); // endpoint -> emitted packets (hex), in order
-    let mut sent: HashMap<String, HashMap<u64, (u64, Vec<(u8, u64, i64)>)>> = HashMap::new(); // who -> seq -> (clock, entries)
+    let mut sent: HashMap<String, HashMap<u64, Vec<(u64, Vec<(u8, u64, i64)>)>>> = HashMap::new(); // who -> seq -> every packet emitted under that sequence: (clock, entries)
     let mut acked: HashMap<String, HashMap<(u8, u64, i64), usize>> = HashMap::new();
     let mut clock: HashMap<String, u64> = HashMap::new();
     let clock_key = |w: &str| if w.starts_with('s') { "srv".to_string() } else { w.to_string() };
@@ -3567,7 +3775,7 @@ fn oracle_c15_acked(ops: &[String], outs: &[String]) -> Option<OracleFail> {
                             return fail(i, "sent-after-ack-processed", format!("{} transmits channel {} message {} slice {} again although an acknowledgement for a packet carrying it was processed at op {}", who, e.0, e.1, e.2, at));
                         }
                     }
-                    sent.entry(who.clone()).or_default().insert(seq, (now, entries));
+                    sent.entry(who.clone()).or_default().entry(seq).or_default().push((now, entries));
                 }
             }
             "dlv" if t.len() == 4 && out == "ok" => {
@@ -3579,10 +3787,12 @@ fn oracle_c15_acked(ops: &[String], outs: &[String]) -> Option<OracleFail> {
                 let now = *clock.get(&clock_key(&to)).unwrap_or(&0);
                 if let Some(WPacket::Ack { ack_ranges, .. }) = hist.get(&from).and_then(|h| h.get(k)).and_then(|p| decode(p)) {
                     if let Some(mine) = sent.get(&to) {
-                        for (seq, (at, entries)) in mine.iter() {
-                            if now.saturating_sub(*at) < 2_900_000 && ack_ranges.iter().any(|r| r.start <= *seq && *seq < r.end) {
-                                for e in entries {
-                                    acked.entry(to.clone()).or_default().entry(*e).or_insert(i);
+                        for (seq, pkts) in mine.iter() {
+                            for (at, entries) in pkts.iter() {
+                                if now.saturating_sub(*at) < 2_900_000 && ack_ranges.iter().any(|r| r.start <= *seq && *seq < r.end) {
+                                    for e in entries {
+                                        acked.entry(to.clone()).or_default().entry(*e).or_insert(i);
+                                    }
                                 }
                             }
                         }
@@ -3801,7 +4011,7 @@ pub fn oracles() -> Vec<Oracle> {
         Oracle { prop: "C14", name: "budget", engines: &["rn-pair", "rn-multi", "rn-unrel", "rn-timing"], check: oracle_c14 },
         Oracle { prop: "C15", name: "resend-timing", engines: &["rn-pair", "rn-timing"], check: oracle_c15 },
         Oracle { prop: "C15", name: "prompt-and-final", engines: &["rn-timing"], check: oracle_c15_prompt },
-        Oracle { prop: "C08", name: "release-after-delivery", engines: &["rn-pair", "rn-timing", "rn-long", "rn-acks", "rn-volume"], check: oracle_c08 },
+        Oracle { prop: "C08", name: "release-after-delivery", engines: &["rn-pair", "rn-timing", "rn-long", "rn-acks", "rn-volume", "rn-multi-ackgap"], check: oracle_c08 },
         Oracle { prop: "C11", name: "isolation-ordered", engines: &["rn-multi", "rn-volume-mixed"], check: oracle_c01 },
         Oracle { prop: "C11", name: "isolation-unordered", engines: &["rn-multi", "rn-volume-mixed"], check: oracle_c02 },
     ]
